@@ -1,6 +1,6 @@
 """Child of the C17 check: a fresh interpreter (its PYTHONHASHSEED is set by the parent).
-stdin: JSON {"seed": k, "schemas": [source, ...], "repeat": n}; stdout: JSON list (one entry per
-repetition) of lists of canonical value texts (or 'raise:<Class>')."""
+stdin: JSON list of jobs {"seed": repr(k), "schemas": [source, ...], "repeat": n}; stdout: per job a list
+(one entry per repetition) of lists of canonical value texts (or 'raise:<Class>')."""
 import json
 import sys
 
@@ -15,14 +15,14 @@ def canon(v):
         return f"unmodelled:{type(e).__name__}"
 
 
-def main():
-    req = json.load(sys.stdin)
+def one(req):
     from d42 import fake
     from d42.generation import Random
     schemas = [gen.build(src) for src in req["schemas"]]
     out = []
+    seed = eval(req["seed"])
     for _ in range(req.get("repeat", 1)):
-        Random().set_seed(req["seed"])
+        Random().set_seed(seed)
         row = []
         for s in schemas:
             try:
@@ -30,7 +30,12 @@ def main():
             except Exception as e:  # noqa
                 row.append("raise:" + type(e).__name__)
         out.append(row)
-    json.dump(out, sys.stdout)
+    return out
+
+
+def main():
+    jobs = json.load(sys.stdin)          # list of {"seed": repr, "schemas": [...], "repeat": n}
+    json.dump([one(j) for j in jobs], sys.stdout)
 
 
 if __name__ == "__main__":
